@@ -20,7 +20,8 @@ ScalarKinds == {"float", "float_tiny", "float_huge", "neg_zero", "int", "complex
                 "np_complex128", "zero_d_array", "np_float32", "none_explicit",
                 "complex_neg", "np_complex_neg"}         \* negative imaginary part (text form "a-bj")
 SeqKinds == {"list", "tuple", "array1d", "list_of_np"}
-ObjKinds == {"nested_object", "prior", "derived_prior", "ufunc_prior", "complex_prior"}
+ObjKinds == {"nested_object", "prior", "derived_prior", "ufunc_prior", "complex_prior",
+             "prior_half_open", "prior_unbounded", "prior_guess_on_bound"}   \* improper priors, guess = a bound
 Kinds == ScalarKinds \cup SeqKinds \cup ObjKinds
 
 Norm(k) == IF k \in {"tuple", "array1d", "list_of_np"} THEN "list"
